@@ -100,7 +100,7 @@ pub fn trace_hashes(w: &World) -> (String, String) {
 			Ev::TimerSleep { ns } => ("t".into(), format!("tsleep:{}", ns)),
 			Ev::ThreadSleep { ns } => ("t".into(), format!("bsleep:{}", ns)),
 			Ev::Op { what } => ("op".into(), what.clone()),
-			Ev::FileNote { len, when, .. } => ("fs".into(), format!("note:{}:{}", when, len)),
+			Ev::FileNote { when, .. } => ("fs".into(), format!("note:{}", when)), // length is key-material dependent (RSA DER)
 			Ev::Panic { msg } => ("d".into(), format!("panic:{}", msg)),
 		};
 		full.push_str(&format!("{}|{}|{}|{}\n", e.seq, e.t, res, detail));
@@ -119,7 +119,11 @@ pub fn result_json(plan: &Plan, r: &RunResult, props: &[String]) -> (Value, Vec<
 	for p in props {
 		let rep = monitors::check(p, r);
 		for v in rep.violations.iter() {
-			all_v.push(v.clone());
+			// details must not depend on the process (scratch paths carry the pid)
+			let mut v = v.clone();
+			let base = run::scratch_base().to_string_lossy().to_string();
+			v.detail = v.detail.replace(&base, "@SCRATCH");
+			all_v.push(v);
 		}
 		for (k, v) in rep.probes.iter() {
 			*probes.entry(k.clone()).or_insert(0) += v;
